@@ -833,4 +833,19 @@ theorem semicolon_aux (isPfx : Nat → Bool) (e : E) (h : numeralsAreNotPrefix i
       simp only [endsCallable, this, expressionEndsWithPrefix, hn, Bool.false_or]
       exact ihr hr
 
+/-! ### `merge_char` never separates the character from what was written before it -/
+
+theorem mergeChar_adjacent (w : W) (c p : Nat) (t : List Nat) (h : w.rout = p :: t) (hl : 1 ≤ w.lastPush) :
+    ∃ t', (mergeChar w c).rout = c :: p :: t' := by
+  unfold mergeChar
+  split
+  · exact ⟨t, by simp [rawPushChar, h]⟩
+  · obtain ⟨n, hn⟩ : ∃ n, w.lastPush = n + 1 := ⟨w.lastPush - 1, by omega⟩
+    refine ⟨List.take n t ++ NL :: (List.drop w.lastPush w.rout).dropWhile (· == SP), ?_⟩
+    simp [h, hn, List.take_succ_cons]
+
+/-- what `push_str "()"` does instead when the line is full: a newline in front of the `(` -/
+theorem pushStr_can_separate :
+    (pushStr (rawPushStr (W.init 1) [102]) [40, 41]).output = [102, 10, 40, 41] := by decide
+
 end DarkluaModel.C02
